@@ -57,6 +57,51 @@ theorem call_binds (names : List Name) (args : List (Option α)) (kwargs : List 
   unfold bindArgs
   rw [if_neg (by rw [h1]; simp), if_neg (by rw [h2]; simp)]
   rfl
+
+/-- `None` as a keyword value (`bindArgsN`, what the driver runs): the two `TypeError`s are decided by the keyword *names*
+alone, and otherwise every indeterminate gets its positional value, else the value of its keyword unless that is `None`,
+else stays free -/
+theorem call_binds_none_keyword {β : Type} (names : List Name) (args : List (Option β)) (kwargs : List (Name × Option β))
+    (h1 : (List.zip args names).any (fun an => kwargs.any (fun kv => kv.1 == an.2)) = false)
+    (h2 : kwargs.any (fun kv => !(names.contains kv.1)) = false) :
+    bindArgsN names args kwargs = some ((List.range names.length).map fun k =>
+      match (args.getD k none) with
+      | some a => some a
+      | none => (kwargs.find? (fun kv => kv.1 == names.getD k 0)).bind (·.2)) := by
+  have h1' : (List.zip (args.map (Option.map some)) names).any
+      (fun an => kwargs.any (fun kv => kv.1 == an.2)) = false := by
+    rw [List.any_eq_false] at h1 ⊢
+    intro an han
+    have hz : List.zip (args.map (Option.map some)) names = (List.zip args names).map (Prod.map (Option.map some) id) := by
+      rw [← List.zip_map, List.map_id]
+    rw [hz] at han
+    obtain ⟨bn, hbn, rfl⟩ := List.mem_map.1 han
+    exact h1 bn hbn
+  unfold bindArgsN
+  rw [call_binds names _ kwargs h1' h2, Option.map_some, List.map_map]
+  congr 1
+  refine List.map_congr_left fun k _ => ?_
+  have hk : (args.map (Option.map some)).getD k none = (args.getD k none).map some := by
+    rw [List.getD_eq_getElem?_getD, List.getD_eq_getElem?_getD, List.getElem?_map]
+    cases args[k]? <;> rfl
+  simp only [Function.comp_apply]
+  rw [hk]
+  cases args.getD k none with
+  | some a => rfl
+  | none =>
+    simp only [Option.map_none]
+    cases kwargs.find? (fun kv => kv.1 == names.getD k 0) <;> rfl
+
+/-- an unknown keyword or a doubly given name is a `TypeError` also when the keyword's value is `None` -/
+theorem call_none_keyword_errors {β : Type} (names : List Name) (args : List (Option β)) (kwargs : List (Name × Option β))
+    (h : (List.zip (args.map (Option.map some)) names).any (fun an => kwargs.any (fun kv => kv.1 == an.2)) = true ∨
+      kwargs.any (fun kv => !(names.contains kv.1)) = true) : bindArgsN names args kwargs = none := by
+  unfold bindArgsN bindArgs
+  rcases h with h | h
+  · rw [if_pos h]; rfl
+  · by_cases h' : (List.zip (args.map (Option.map some)) names).any (fun an => kwargs.any (fun kv => kv.1 == an.2)) = true
+    · rw [if_pos h']; rfl
+    · rw [if_neg h', if_pos h]; rfl
 end bind
 
 /-! ### the complete call `poly(*args, **kwargs)` of the model (`callArr`: what the driver runs) — Np/Proofs/CallTop.lean.
